@@ -400,7 +400,13 @@ fn sampled_v<T: IntS, V: LiftV<T, N>, const N: usize>(t: &mut Tape, cx: &mut Cx)
         };
     }
     sample!(cx, "{}<{}> a={:?} b={:?}", V::NAME, T::NAME, a, b);
-    let arrs: Arrs<T, N> = [(a, b); NCLS];
+    let mut arrs: Arrs<T, N> = [(a, b); NCLS];
+    // checked_neg of an unsigned value exists for 0 only: keep the non-hot lanes benign for that class too
+    for i in 0..N {
+        if a[i] == benign_pair::<T>(C_ADD, i).0 {
+            arrs[C_NEG].0[i] = benign_pair::<T>(C_NEG, i).0;
+        }
+    }
     let mut st = St::default();
     ops_once::<T, V, N>(cx, &arrs, focus, &mut st)?;
     check_eq!(cx, <V as Zero>::is_zero(&V::mk(&a)), a.iter().all(|x| x.is_zero()), "{}<{}>::is_zero({:?})", V::NAME, T::NAME, a);
